@@ -235,10 +235,12 @@ def check(lines):
             ctx, op, res = ev[1], ev[2], ev[3]
             if not op: continue
             o = op[0]
+            tnow = last_t
             if ctx.startswith("a") and after_idle and expect_after_idle is not None:
                 # step hook right after a clock step (completions posted, none has run): the clock already
-                # stands at the jump target; the next time-bearing event is still held against that target
-                last_t = expect_after_idle
+                # stands at the jump target (the next time-bearing event is still held against that target;
+                # the observed clock `last_t` itself is not touched)
+                tnow = expect_after_idle
             if o == "run":
                 if ctx == "top":
                     in_run = True; run_handlers = 0; run_fires = 0; idles_stopped = 0; second_idle_t = None
@@ -266,7 +268,7 @@ def check(lines):
                 if o == "dispatch" and ctx.startswith("h"):
                     posted_ids.setdefault("dispatch", set()).add(h)
                 else:
-                    posted.append((h, last_t))
+                    posted.append((h, tnow))
                 continue
             if "." not in o: continue
             n, m = o.split(".", 1)
@@ -275,7 +277,7 @@ def check(lines):
             v = ref.get(n)
             if m in ("expires_at", "expires_after"):
                 exp_ret = abort_waiter(v)
-                e = int(op[1]) if m == "expires_at" else last_t + int(op[1])
+                e = int(op[1]) if m == "expires_at" else tnow + int(op[1])
                 v["e"] = e; v["armed"] = True; v["seq"] = ref.seq; ref.seq += 1
                 if res is not None and int(res) != exp_ret:
                     f3.append(("cancel_return", "%s returned %s, a wait was %spending" % (" ".join(op), res, "" if exp_ret else "not ")))
@@ -286,15 +288,15 @@ def check(lines):
                     f3.append(("cancel_return", "%s returned %s, a wait was %spending" % (" ".join(op), res, "" if exp_ret else "not ")))
             elif m == "wait":
                 h = op[1][1:]
-                started[h] = dict(timer=n, s=last_t, e=v["e"], state="pending", wseq=len(started))
+                started[h] = dict(timer=n, s=tnow, e=v["e"], state="pending", wseq=len(started))
                 if v["armed"]:
                     v["waiter"] = h
-                elif v["e"] > last_t:
+                elif v["e"] > tnow:
                     # not armed (cancelled or fired) but expiry still ahead: waits for it
                     v["armed"] = True; v["waiter"] = h; v["seq"] = ref.seq; ref.seq += 1
                     stats["requeue"] += 1
                 else:
-                    started[h]["state"] = "fired"; started[h]["due"] = last_t
+                    started[h]["state"] = "fired"; started[h]["due"] = tnow
                     stats["immediate"] += 1
             elif m == "expiry":
                 if res is not None and int(res) != v["e"]:
